@@ -173,9 +173,9 @@ def run_case(i, seed, tier):
     profile = ['churn', 'grow', 'names', 'churn', 'links', 'std'][i % 6]
     nops = g.rng.choice([8, 15, 30, 45]) if tier == 'quick' else g.rng.choice([10, 30, 60, 100])
     h = common.History(cfg, seed * 1000003 + i, profile, max_size=6000)
-    if i % 25 == 9:
+    if i % 8 == 1:
         h.sess.close()
-        cfg, sops = common.special_layout(g, common.SPECIALS[(i // 25) % len(common.SPECIALS)])
+        cfg, sops = common.special_layout(g, common.SPECIALS[(i // 8) % len(common.SPECIALS)])
         h = common.History(cfg, seed * 1000003 + i, 'churn', max_size=6000)
         for op in sops:
             h.apply(op)
